@@ -159,6 +159,13 @@ fn conservation(o: &Opts, rep: &mut Report, only: Option<(bool, usize, usize)>) 
                     }
                 }
             }
+            // long single calls: the run length does not fit a byte (BC wraps every 65536 passes = 2^20 T: the
+            // comparison below is modulo 2^20)
+            for frames in [256usize, 300, 513] {
+                if o.thorough() || frames == 300 || !m128 {
+                    cases.push((m128, frames, frames));
+                }
+            }
         }
     }
     for (m128, frames, per_call) in cases {
@@ -189,7 +196,7 @@ fn conservation(o: &Opts, rep: &mut Report, only: Option<(bool, usize, usize)>) 
         let case = format!("conserve {} {} {}", if m128 { 128 } else { 48 }, frames, per_call);
         if pc != 0x8001 && pc != 0x8002 {
             viol(rep, Kind::SpecViolated, "C05/conservation/pc", format!("counting loop left its code: PC={:04x}", pc), case, format!("{:04x}", pc), "8001|8002".into());
-        } else if executed != frames * l + fc || fc >= 10 {
+        } else if executed % (1 << 20) != (frames * l + fc) % (1 << 20) || fc >= 10 {
             viol(rep, Kind::SpecViolated, "C05/conservation/lost-tstates",
                 format!("{}{} after {} frames ({} per call): program executed {} T but frames*L+offset = {}*{}+{} = {}",
                     if m128 { "128K" } else { "48K" }, lock.map(|v| format!(" (paging locked by {:02x})", v)).unwrap_or_default(), frames, per_call, executed, frames, l, fc, frames * l + fc),
@@ -407,6 +414,12 @@ fn host_ops(rep: &mut Report, only: Option<(bool, usize, usize)>) {
                         // a screen file loaded at this stop
                         let _ = e.load_screen(rustzx_core::host::Screen::Scr(VAsset::new(vec![(ti as u8) | 1; 6912])));
                     }
+                    let after_scr = e.verif_frame_clocks();
+                    if ai == 1 {
+                        // a snapshot saved at this stop, the stack in contended memory
+                        e.verif_cpu().regs.set_sp(0x5000 + (ti as u16) * 2);
+                        let _ = crate::c13::snap::save_sna(&mut e);
+                    }
                     let after = e.verif_frame_clocks();
                     rep.eval();
                     rep.class(format!("host-op m128={} bank={} region={:x} contended-time={}", m128, bank, a >> 14, t >= first && t < first + 192 * line));
@@ -414,10 +427,10 @@ fn host_ops(rep: &mut Report, only: Option<(bool, usize, usize)>) {
                         viol(
                             rep,
                             Kind::SpecViolated,
-                            if after_poke != before { "C05/host-op/poke" } else if after_peek != before { "C05/host-op/peek" } else { "C05/host-op/load-screen" },
+                            if after_poke != before { "C05/host-op/poke" } else if after_peek != before { "C05/host-op/peek" } else if after_scr != before { "C05/host-op/load-screen" } else { "C05/host-op/save-snapshot" },
                             format!(
                                 "{} (bank {} at 0xC000) stopped at frame offset {}: a host {} of {:04x} moves the frame offset to {} although nothing was executed — executed T-states no longer equal frames*L + offset",
-                                if m128 { "128K" } else { "48K" }, bank, before, if after_poke != before { "poke" } else if after_peek != before { "peek" } else { "load_screen after a poke/peek" }, a, after
+                                if m128 { "128K" } else { "48K" }, bank, before, if after_poke != before { "poke" } else if after_peek != before { "peek" } else if after_scr != before { "load_screen after a poke/peek" } else { "save_snapshot (SNA, stack in contended memory) after a poke/peek" }, a, after
                             ),
                             format!("hostop {} {} {} {}", if m128 { 128 } else { 48 }, t, ai, bank),
                             format!("{}", after),
@@ -480,9 +493,9 @@ pub fn run(o: &Opts) -> Report {
     rep.rule = "clock level: seeded wait sequences (bus-sized 1..13 T, larger, near-frame-length, boundary values) through the \
 real wait_internal over many frames, (offset, frames, INT) compared after every wait with the Lean clock model and with \
 total = frames*L + offset, INT <=> offset < 32; system level: counting loop (16 T/iteration) run for 1..14 frames sliced \
-1/2/3/14 frames per emulate_frames call on both machines (executed T-states must equal frames*L+offset), IM 2 \
+1/2/3/14 frames per emulate_frames call and for 256/300/513 frames in a single call on both machines (executed T-states must equal frames*L+offset), IM 2 \
 interrupt counters under HALT and busy loops (exactly one interrupt per frame start), and the INT window swept with \
-an interrupt-enabled CPU at every frame offset 0..47; host pokes/peeks/screen-file loads at a mid-frame stop (every phase of the contention pattern, every memory region and 128K bank) must leave the frame offset alone; interrupt-driven programs (EI;HALT under IM 2 with a handler that re-enables interrupts at once / after more than 32 T; a repeating LDIR with interrupts enabled at every phase relative to the frame start; code in uncontended and contended RAM) run across a frame start in lock-step with the Lean machine. distinct/non-trivial = distinct (machine, offset near a frame \
+an interrupt-enabled CPU at every frame offset 0..47; host pokes/peeks/screen-file loads/snapshot saves at a mid-frame stop (every phase of the contention pattern, every memory region and 128K bank) must leave the frame offset alone; interrupt-driven programs (EI;HALT under IM 2 with a handler that re-enables interrupts at once / after more than 32 T; a repeating LDIR with interrupts enabled at every phase relative to the frame start; code in uncontended and contended RAM) run across a frame start in lock-step with the Lean machine. distinct/non-trivial = distinct (machine, offset near a frame \
 edge, INT level) clock observations + distinct program/slicing/offset cases".into();
     let mut model = Model::spawn(&o.model, "C05");
     if let Some(text) = &o.replay {
